@@ -176,6 +176,10 @@ fn tokens() -> Vec<(String, Vec<u8>)> {
         ("a*1100", vec![b'a'; 1100]),
         ("(a;)*20", b"a;".repeat(20)),
         ("(1;)*16", b"1;".repeat(16)),
+        // complete OSC strings that exactly fill / overflow the fixed buffer (state after them matters)
+        ("OSC[a*1024]BEL", [b"\x1b]".to_vec(), vec![b'a'; 1024], vec![7]].concat()),
+        ("OSC[0;a*1100]ST", [b"\x1b]0;".to_vec(), vec![b'a'; 1100], b"\x1b\\".to_vec()].concat()),
+        ("OSC[(a;)*15 b]BEL", [b"\x1b]".to_vec(), b"a;".repeat(15), b"b\x07".to_vec()].concat()),
     ] {
         t.push((n.to_string(), b));
     }
